@@ -56,8 +56,9 @@ Fixpoint ll_inner (vals : list num) (n i : nat) (x0 y0 : num) : list Z :=
 Fixpoint ll_terms (vals : list num) (offs : list nat) : list Z :=
   match offs with
   | start :: ((stop :: _) as t) =>
-      ll_inner vals (range2_count (start + 2) stop) (start + 2)
-               (vget vals start) (vget vals (start + 1))
+      (if Nat.ltb (stop - start) 4 then []      (* fewer than two vertices: continue *)
+       else ll_inner vals (range2_count (start + 2) stop) (start + 2)
+                     (vget vals start) (vget vals (start + 1)))
       ++ ll_terms vals t
   | _ => []
   end.
@@ -197,8 +198,8 @@ Definition pt_area (a : fixarr) : list num := zeros_nan 0%Z (fa_isna a).
 
 (* buffer_offsets of a scalar: the branch  len(buffers) < 3  (a Line / Ring /
    MultiPoint scalar: .values is a plain numeric array, "offset values that
-   include everything") and  len(buffers) < 2  (null-typed empty element;
-   la_len = 0 there, [0; 0] and [0] give the same inner offsets [0]) *)
+   include everything"); a null-typed empty element ( len(buffers) < 2 ,
+   buffer_offsets = (np.array([0]),) ) is exported with la_offs = [[0]] *)
 Definition sc_buffer_offsets (s : listarr) : list (list nat) :=
   match la_offs s with
   | [] => [[0; la_len s]]
@@ -264,8 +265,9 @@ Definition multipolygon_boundary (a : listarr) : listarr :=
 (* Polygon.boundary = MultiLine(self.data): the very same ListScalar *)
 Definition sc_polygon_boundary (s : listarr) : listarr := s.
 
+(* MultiLine([]): a null-typed .values, for which buffer_offsets is (np.array([0]),) *)
 Definition empty_scalar : listarr :=
-  {| la_off := 0; la_len := 0; la_valid := None; la_offs := []; la_vals := [] |}.
+  {| la_off := 0; la_len := 0; la_valid := None; la_offs := [[0]]; la_vals := [] |}.
 
 (* MultiPolygon.boundary:
      buffer_offsets = self.buffer_offsets
